@@ -336,6 +336,12 @@ def rule_names_numbers(ctx, f):
             continue
         ok = body["id"] in decoders or any(F.callee_name(t) in decoders for bi, t in F.calls(body))
         ctx.check(ok, "C03-TABLE-tok", body["id"] + "#name-decoding", "#xx escapes are not decoded in %s" % what, body["span"], detail="%s decode #xx" % what)
+    # an integer is recognised by its characters, however many there are (leading zeros are legal: `00000000017`)
+    ib = f.body("parser::lexer::is_int")
+    if ib is not None:
+        lens = [t for bb in [ib] + f.closures_of(ib["id"]) for bi, t in F.calls(bb) if last_seg(F.callee_name(t)) in ("len", "count", "take", "get")]
+        ctx.check(not lens, "C03-TABLE-tok", "is_int#digits-only", "whether a token is an integer depends on its length (%s), not only on its characters: long spellings of small "
+                  "numbers are read as reals or not at all" % ", ".join(sorted({last_seg(F.callee_name(t)) for t in lens})), ib["span"], detail="all characters are digits")
     # numbers
     for nm in ("is_integer", "real_number"):
         b = None
@@ -599,6 +605,13 @@ def rule_eof_token(ctx, f, rule="C03-G4"):
             ctx.check(both, rule, "%s#loop-classes@%d" % (b["id"].split("::")[-1], sorted(loops).index(h)), "a token-scanning loop of the lexer stops at %s only: a name or number runs "
                       "on through the other class, so tokens written without a separator fuse" % sorted(tests & {"is_whitespace", "is_delimiter"}),
                       b["blocks"][h]["term"].get("span", b["span"]), detail="while !is_whitespace(pos) && !is_delimiter(pos)")
+        # the end of the buffer leaves the lexer as the bare EOF error: Lexer::peek turns exactly that into "no more tokens" (an integer or a
+        # dictionary at the end of a member slice is followed by nothing).  An error wrapped on the way (`t!(..)` -> PdfError::Try) is not
+        # recognised there
+        wraps = [st for i_, j_, st in F.stmts(b) if st[0] == "assign" and st[2][0] == "aggregate" and st[2][1].get("adt") == "error::PdfError" and st[2][1].get("variant") in ("Try", "Other", "Shared")]
+        ctx.check(not wraps, rule, "%s#eof-unwrapped" % b["id"].split("::")[-1], "the token scanner wraps an error on its way out (PdfError::%s): the end of the buffer no longer reaches "
+                  "Lexer::peek as plain EOF, so a value followed only by white-space or a comment at the end of the data fails to parse" % (wraps[0][2][1].get("variant") if wraps else ""),
+                  b["span"], detail="errors of the scanner are handed on unchanged")
     ctx.floor(rule, n, 1, "bounded advances inside the token-scanning loops of the lexer")
 
 
